@@ -16,19 +16,25 @@ typedef struct m512 { uint64_t q[8]; } m512;
 #define AVM_L16(v,i) ((uint16_t)((v).q[(i)>>2] >> (((i)&3)*16)))
 #define AVM_L8(v,i)  ((uint8_t)((v).q[(i)>>3] >> (((i)&7)*8)))
 
-/* C++11 (CWG 1457) rule for E1 << E2 with signed E1: E1 non-negative, E2 in range, and
- * E1 * 2^E2 representable in the corresponding UNSIGNED type.  CBMC applies the stricter C rule
- * to a native signed shift, which would raise false alarms on e.g. 1 << 31. */
+/* lane stores (read-modify-write of the containing 64-bit word) */
+#define AVM_S64(r,i,x) ((r).q[(i)] = (uint64_t)(x))
+#define AVM_S32(r,i,x) ((r).q[(i)>>1] = ((r).q[(i)>>1] & ~(0xffffffffull << (((i)&1)*32))) | ((uint64_t)(uint32_t)(x) << (((i)&1)*32)))
+#define AVM_S16(r,i,x) ((r).q[(i)>>2] = ((r).q[(i)>>2] & ~(0xffffull << (((i)&3)*16))) | ((uint64_t)(uint16_t)(x) << (((i)&3)*16)))
+#define AVM_S8(r,i,x)  ((r).q[(i)>>3] = ((r).q[(i)>>3] & ~(0xffull << (((i)&7)*8))) | ((uint64_t)(uint8_t)(x) << (((i)&7)*8)))
+
+/* Signed E1 << E2.  The shift AMOUNT must be in range on every compiler (checked).  A negative E1 or a
+ * result that does not fit is formally undefined before C++20, but GCC and Clang -- the only compilers
+ * the x86 branches of AVEL accept -- document signed << as the two's-complement operation ("GCC does not
+ * use the latitude given in C99 and C11 only to treat certain aspects of signed '<<' as undefined"), and
+ * C++20 defines it so.  Demanding more would raise alarms on code whose behaviour is defined where it can
+ * be compiled, so the model computes the modular result and checks only the amount.  (CBMC's own check on
+ * a native signed shift follows C99 and would flag 1 << 31.) */
 static inline int32_t AVM_SHL_S32(int32_t a, long long s) {
-  __CPROVER_assert(s >= 0 && s < 32, "C++ shift: amount out of range (signed 32-bit <<)");
-  __CPROVER_assert(a >= 0, "C++ shift: negative left operand of signed <<");
-  __CPROVER_assert((((uint32_t)a << s) >> s) == (uint32_t)a, "C++ shift: value not representable in unsigned type (signed <<)");
+  __CPROVER_assert(s >= 0 && s < 32, "shift amount out of range (signed 32-bit <<)");
   return (int32_t)((uint32_t)a << s);
 }
 static inline int64_t AVM_SHL_S64(int64_t a, long long s) {
-  __CPROVER_assert(s >= 0 && s < 64, "C++ shift: amount out of range (signed 64-bit <<)");
-  __CPROVER_assert(a >= 0, "C++ shift: negative left operand of signed <<");
-  __CPROVER_assert((((uint64_t)a << s) >> s) == (uint64_t)a, "C++ shift: value not representable in unsigned type (signed <<)");
+  __CPROVER_assert(s >= 0 && s < 64, "shift amount out of range (signed 64-bit <<)");
   return (int64_t)((uint64_t)a << s);
 }
 /* promoted operands are at least int, so 8/16-bit forms never occur; kept for completeness */
